@@ -77,6 +77,14 @@ def configs(ctx):
         if i % 7 == 3:
             cfg['diversity_check'] = 1
         out.append(cfg)
+    # structured corners: diversity refill with unevaluable mutants, strict rule with every mutation
+    # attempt rejected, invalid initial graphs
+    for j in range(ctx.budget(6, 40)):
+        out.append(optrun.collapse_config(rng, optimiser=['evo', 'surrogate', 'pop_random_mutation'][j % 3]))
+    for j in range(ctx.budget(4, 30)):
+        out.append(optrun.strict_rule_config(rng, optimiser=['evo', 'pop_random_mutation'][j % 2]))
+    for j in range(ctx.budget(2, 12)):
+        out.append(optrun.invalid_initial_config(rng))
     return out
 
 
